@@ -4,6 +4,7 @@ package xmpp
 // Send-log / held-list model stepped alongside the real client; the peer's raw byte log is the wire.
 
 import (
+	"context"
 	"encoding/xml"
 	"fmt"
 	"math/rand"
@@ -329,7 +330,17 @@ func vfC10RunSequential(run *vfkit.Run, cs *vfC10Case) {
 		case "msg", "pres", "iq":
 			p := vfC10Packet(st.Op, st.Text)
 			b, _ := xml.Marshal(p)
-			if err := s.c.Send(p); err != nil {
+			var err error
+			if iq, ok := p.(*stanza.IQ); ok && i%2 == 0 && (iq.Type == stanza.IQTypeGet || iq.Type == stanza.IQTypeSet) {
+				// a request sent the way applications send requests: it is a stanza on the session like any other
+				ctx, cancel := context.WithCancel(context.Background())
+				_, err = s.c.SendIQ(ctx, iq)
+				cancel()
+				run.Count("requests_sent_with_sendiq", 1)
+			} else {
+				err = s.c.Send(p)
+			}
+			if err != nil {
 				run.Violation("C10/send-error", fmt.Sprintf("%s: %v", where, err), cs)
 				return
 			}
